@@ -631,4 +631,35 @@ theorem C19_membership_refines (d : Decl) (s : Agg) (h : Reachable d s) (x : Val
     exact decide_eq_decide.mpr (keyMem_sortL x.key s.cells).symm
 
 
+/-! ## the bounds rule joined with the container step -/
+
+theorem eraseBounds_canon : ∀ t : Ty, eraseBounds (canon t) = t
+  | .simple _ => rfl
+  | .agg k b => by simp [canon, eraseBounds, eraseBounds_canon b]
+
+theorem boundsFit_canon_self : ∀ t : Ty, boundsFit (canon t) (canon t) = true
+  | .simple _ => rfl
+  | .agg k b => by
+    simp only [canon, boundsFit, boundsFit_canon_self b, Bool.and_true]
+    cases k <;> simp [harnessBounds, boundsConform, upperWithin]
+
+/-- **The container step and the bounds rule, joined**: in the value universe of the refinement every element aggregate and
+every declared element type carries the harness's bounds (`canon`); there the bounds-comparing `check_type`
+(`elementAccepted`, what the code runs since fixes/C19-7) accepts exactly what the bounds-less `checkType` of the container
+step accepts.  So `C19_step_refines` speaks about the code that compares bounds; for elements with *other* bounds
+`C19_element_accepted_iff_specializes` says when they are accepted. -/
+theorem C19_bounds_rule_joins_container_step (t : Ty) (k : Kind) (b : Ty) :
+    elementAccepted (canon t) (canon (.agg k b)) = checkType ⟨t, 1⟩ (.agg k b) := by
+  unfold elementAccepted
+  rw [eraseBounds_canon, eraseBounds_canon, C19_tie_element_bounds_checked]
+  simp only [if_true]
+  cases hc : checkType ⟨t, 1⟩ (.agg k b) with
+  | false => simp
+  | true =>
+    have hconf := (checkType_iff ⟨t, 1⟩ (.agg k b)).mp hc
+    have ht : t = .agg k b := by simpa [conforms] using hconf
+    subst ht
+    simp [boundsFit_canon_self]
+
+
 end StepModel.PyAgg
